@@ -158,7 +158,7 @@ def judge(out, behs, lines, tr, found, prop):
 
 def is_f20(beh, rec, ops):
     """signature of known finding F20 (see known_findings.json)"""
-    if (beh.get("reload") or {}).get("kind") != "env" or rec.get("op") != "hit" or not rec.get("inspan") or rec.get("got") != 0:
+    if (beh.get("reload") or {}).get("kind") not in ("env", "envplf") or rec.get("op") != "hit" or not rec.get("inspan") or rec.get("got") != 0:
         return False
     inspan = [o for o in ops if o.get("op") == "hit" and o.get("inspan")]
     if not inspan:
@@ -171,7 +171,7 @@ def is_f20(beh, rec, ops):
 def is_f26(beh, rec, ops):
     """signature of known finding F26: the in-span emission overlaps a reload of the EnvFilter, i.e. its span instance may have
     been created under the previous filter instance, which the new instance knows nothing about"""
-    if (beh.get("reload") or {}).get("kind") != "env" or rec.get("op") != "hit" or not rec.get("inspan") or rec.get("got") != 0:
+    if (beh.get("reload") or {}).get("kind") not in ("env", "envplf") or rec.get("op") != "hit" or not rec.get("inspan") or rec.get("got") != 0:
         return False
     return any(o.get("op") == "reload" and o["start"] < rec["end"] and o["end"] > rec["start"] for o in ops)
 
